@@ -27,30 +27,38 @@ COQ_FILES = ['Base/Mat.v', 'Base/SumQ.v', 'Model/SymTerm.v', 'Proofs/SymTerm.v',
              'Model/SymTermGenRun.v', 'Proofs/SymTermGenThm.v', 'Model/SymTermKinds.v', 'Proofs/SymTermKinds.v',
              # equivariance of the STATEMENT-LEVEL models of C03 / C16 / C08 / C15 / C18 (their files are pulled in as dependencies)
              'Proofs/EquivModels.v', 'Proofs/EquivModelsEff.v', 'Proofs/EquivModelsComp.v', 'Proofs/EquivModelsBetw.v', 'Proofs/EquivModelsCore.v',
-             'Proofs/EquivModelsWalks.v', 'Proofs/EquivModelsLinear.v', 'Proofs/SymTermFull.v', 'Properties/C04.v']
+             'Proofs/EquivModelsWalks.v', 'Proofs/EquivModelsLinear.v', 'Proofs/SymTermFull.v',
+             # FULL statements for the two spectral measures (subgraph_centrality over Coq's reals; eigenvector_centrality_und from LAPACK's specification)
+             'Proofs/EquivModelsExpm.v', 'Proofs/EquivModelsExpmTerm.v', 'Proofs/EquivModelsSpectral.v', 'Properties/C04.v']
 THEOREMS = ['C04_sumQ_reindex', 'C04_symterm_equivariant', 'C04_prog_equivariant', 'C04_measure_equivariant_scalar',
             'C04_measure_equivariant_vector', 'C04_measure_equivariant_matrix', 'C04_measure_equivariant_kinded', 'C04_library_equivariant',
             'C04_library_instances', 'C04_pagerank_equation', 'C04_eigenvector_equation', 'C04_pagerank_full',
-            'C04_eigenvector_full', 'C04_residual_terms_denote', 'C04_subgraph_truncation_partial', 'C04_inverse_renumbering',
+            'C04_eigenvector_full', 'C04_residual_terms_denote', 'C04_subgraph_truncation', 'C04_inverse_renumbering',
             'C04_floyd_model_equivariant', 'C04_distance_wei_floyd_model_equivariant', 'C04_distance_bin_model_equivariant', 'C04_distance_wei_model_equivariant',
             'C04_breadthdist_model_equivariant', 'C04_reachdist_model_equivariant', 'C04_efficiency_model_equivariant', 'C04_ext_eq_unfold',
             'C04_get_components_model_equivariant', 'C04_number_of_components_model_equivariant', 'C04_betweenness_model_equivariant', 'C04_edge_betweenness_model_equivariant',
             'C04_kcore_model_equivariant', 'C04_core_outputs_unfold', 'C04_kcoreness_model_equivariant', 'C04_findwalks_model_equivariant',
             'C04_pagerank_model_equivariant', 'C04_eigenvector_model_equivariant', 'C04_list_permutation', 'C04_run_equivariant',
             'C04_every_term_measure_equivariant', 'C04_denote_degrees_und', 'C04_denote_transitivity_bu', 'C04_gen_equivariant',
-            'C04_gen_run_equivariant', 'C04_gen_same_as_hand_sound']
+            'C04_gen_run_equivariant', 'C04_gen_same_as_hand_sound',
+            'C04_eigenvector_abs_full', 'C04_subgraph_expm_equivariant', 'C04_subgraph_term_is_series']
 RULE = ('structured graphs (cycles, complete, complete bipartite, stars, paths, disjoint copies, cube: repeated eigenvalues; '
         'isolated nodes) and Erdos-Renyi matrices n=2..8, binary/weighted (dyadic weights from a 2-4 element set: many '
         'ties), directed/undirected, signed, with label vectors (non-contiguous labels); every n! permutation for n<=4 '
         '(quick) / n<=5 (thorough), random permutations beyond; plus networks with self-connections, the one-node network and '
-        'Erdos-Renyi n=9..12; second arguments that belong to the nodes (labels, the pagerank prior falff, a position-distance matrix '
+        'Erdos-Renyi n=9..12; eigenvector_centrality_und additionally on every generated undirected network (binary and weighted) that is NOT '
+        'connected but has a SIMPLE largest eigenvalue (gap > 1e-3: one dominant component next to isolated nodes / smaller components; '
+        'families K3+iso, ring4+iso, K3+K2, iso+paw, iso+K3, K2+K3, K2+iso+K4 and the random skeletons with an isolated node), where the '
+        'renumberings put a node from OUTSIDE the dominant component first (table entry eigenvector_centrality_und:disconnected; the '
+        'histogram dominant_component:node0_inside/outside counts the base numberings); second arguments that belong to the nodes (labels, the pagerank prior falff, a position-distance matrix '
         'for navigation) are renumbered with them; one case = (measure, matrix, permutation); '
         'non-trivial = permutation is not the identity and the matrix has an edge; distinct by hash')
 ASSUMES = ['outputs the property leaves free are not compared: eigenvector sign (abs is returned), component label numbering '
            '(compared as partitions), edge-list ordered outputs (ec, degij), number-of-edges / hops / predecessor matrices of '
            'shortest paths under ties, search_information / path_transitivity / erange Eshort (depend on which shortest path)',
-           'spectral measures are run on their documented domain (eigenvector centrality, mean first passage time, diffusion '
-           'efficiency: connected graphs)',
+           'spectral measures are run on their documented domain (mean first passage time, diffusion efficiency: connected graphs; '
+           'eigenvector centrality: connected graphs, and disconnected ones whose largest eigenvalue is simple - there |v| is still unique; '
+           'with a repeated largest eigenvalue the vector depends on LAPACK\'s choice of basis and is not compared)',
            'correspondence inputs are 0/1 or dyadic so that sums and products the terms treat as exact are exact in binary64; '
            'quotients, sqrt, cbrt, LAPACK results are compared with relative tolerance 1e-9']
 TRUSTED = ['harness/translate_symterm.py (Python ast -> SymTerm programs, fail-closed: anything outside the index-symmetric NumPy subset makes the '
@@ -148,7 +156,10 @@ def structured():
             ('ring5', ring(5)), ('K23', kb(2, 3)), ('K5', K(5)), ('star5', star(5)), ('K3+K2', disj(K(3), K(2))), ('ring4+iso', disj(ring(4), np.zeros((1, 1)))),
             ('house', np.array([[0, 1, 0, 0, 1], [1, 0, 1, 0, 1], [0, 1, 0, 1, 0], [0, 0, 1, 0, 1], [1, 1, 0, 1, 0.]])),
             ('ring6', ring(6)), ('K33', kb(3, 3)), ('K3+K3', disj(K(3), K(3))), ('prism', None), ('path6', path(6)), ('ring3+ring3+iso', disj(ring(3), ring(3), np.zeros((1, 1)))),
-            ('ring7', ring(7)), ('ring8', ring(8)), ('cube', None), ('K44', kb(4, 4)), ('ring4+ring4', disj(ring(4), ring(4))), ('K24', kb(2, 4))]
+            ('ring7', ring(7)), ('ring8', ring(8)), ('cube', None), ('K44', kb(4, 4)), ('ring4+ring4', disj(ring(4), ring(4))), ('K24', kb(2, 4)),
+            # not connected, simple largest eigenvalue, node 0 OUTSIDE the dominant component (its leading-eigenvector entry is 0)
+            ('iso+K3', disj(np.zeros((1, 1)), K(3))), ('K2+K3', disj(K(2), K(3))), ('iso+paw', None), ('K2+iso+K4', disj(K(2), np.zeros((1, 1)), K(4)))]
+    paw = np.array([[0, 1, 1, 0], [1, 0, 1, 0], [1, 1, 0, 1], [0, 0, 1, 0.]])
     prism = disj(ring(3), ring(3))
     for i in range(3):
         prism[i, i + 3] = prism[i + 3, i] = 1
@@ -156,7 +167,7 @@ def structured():
     for i in range(8):
         for b in (1, 2, 4):
             cube[i, i ^ b] = 1
-    return [(nm, {'prism': prism, 'cube': cube}.get(nm, M)) for nm, M in out]
+    return [(nm, {'prism': prism, 'cube': cube, 'iso+paw': disj(np.zeros((1, 1)), paw)}.get(nm, M)) for nm, M in out]
 
 
 WSET = [0.25, 0.5, 0.75, 1.0]
@@ -220,6 +231,19 @@ def connected(B):
     return len(seen) == n
 
 
+def dominant_component(A):
+    """None unless the undirected network A is NOT connected and still has a SIMPLE largest eigenvalue (one dominant component next to
+    isolated nodes / smaller components: the leading eigenvector is unique up to sign, so its absolute value is a well-defined per-node
+    measure); else the node set of the dominant component"""
+    n = len(A)
+    if n < 2 or connected(A):
+        return None
+    w, V = np.linalg.eigh(np.asarray(A, float))
+    if not (w[-1] > 0 and w[-1] - w[-2] > 1e-3 * max(1.0, float(w[-1]))):
+        return None
+    return set(int(i) for i in np.flatnonzero(np.abs(V[:, -1]) > 1e-6))
+
+
 # ---------------------------------------------------------------- the table of measures
 # output kinds: 's' scalar, 'v' per-node vector, 'm' per-pair matrix, 'd' distribution / whole-network array (unchanged),
 # 'part' label vector compared as a partition, 'ms' multiset (sorted), 't3' n x n x q tensor (first two axes permuted), '-' not compared
@@ -280,6 +304,9 @@ def table():
     add('edge_betweenness_bin', ['bu', 'bd'], ('m', 'v'), bct.edge_betweenness_bin)
     add('edge_betweenness_wei', ['wu', 'wd'], ('m', 'v'), lambda W: bct.edge_betweenness_wei(inv(W)))
     add('eigenvector_centrality_und', ['bu', 'wu'], 'v', bct.eigenvector_centrality_und, need='connected')
+    # outside the connected domain the measure is still well defined when the largest eigenvalue is simple (dominant component +
+    # isolated nodes / smaller components): nodes outside the dominant component get 0, and NO numbering may flip the sign of the vector
+    add('eigenvector_centrality_und:disconnected', ['bu', 'wu'], 'v', bct.eigenvector_centrality_und, need='dominant')
     add('pagerank_centrality', ['bu', 'wu', 'bd'], 'v', lambda A: bct.pagerank_centrality(A, 0.85))
     # the prior falff is a per-node vector: it is renumbered WITH the nodes (labels 2/5/9 as a non-uniform positive prior); other damping
     add('pagerank_centrality:falff', ['bu', 'wd'], 'v', lambda A, f: bct.pagerank_centrality(A, 0.5, falff=f), labels=True)
@@ -593,6 +620,11 @@ def metamorphic_on(ctx, T, g, perms, stats):
                 if not usp:
                     continue
             A = g[kind]
+            if m['need'] == 'dominant':
+                dom = dominant_component(A)
+                if dom is None:
+                    continue
+                ctx.count('dominant_component:node0_%s' % ('inside' if 0 in dom else 'outside'))
             args0 = (A.copy(), g['ci'].copy()) if m['labels'] else ((A.copy(), g[m['aux']].copy()) if m['aux'] else (A.copy(),))
             ctx.take_variants()
             r0, e0 = safe(m['f'], *args0)
@@ -632,7 +664,7 @@ def run(ctx):
     nmax_all = ctx.scale(4, 5)
     graphs = []
     for nm, B in structured():
-        if len(B) <= 6 or ctx.thorough or nm in ('ring8', 'cube'):
+        if (len(B) <= 6 and nm not in ('iso+K3', 'K2+K3')) or ctx.thorough or nm in ('ring8', 'cube'):     # those two: renumberings of K3+iso / K3+K2
             graphs.append(derive(ctx, nm, B))
     for t in range(ctx.scale(22, 300)):
         n = int(ctx.nprng.randint(2, 9))
